@@ -95,4 +95,38 @@ def run(ck):
     ck.require_any("G3.version-delimiter", facts.fn(RP + "parseRequestFirstLine"), r1,
                    [(E.m_calls(RP + "http0"), True), (E.m_calls(RP + "skipDelimiter"), True)], "return 1", track_history=True,
                    why="(a version token glued to the URI would be accepted)")
+    ck.rule("G4 parseHttpVersionField, general HTTP/<digits>.<digits> form: a digit string is converted through its first character (`*X.rawContent() - '0'`) only under a "
+            "condition that establishes X.length() > 1 false for *that* string; otherwise the version is the 'unsupported' 0.0 (HTTP/1.10 or HTTP/11.1 must not be "
+            "read as HTTP/1.1)")
+    vf = facts.fn(RP + "parseHttpVersionField")
+    vdefs = ck.local_defs(vf)
+    nconv = 0
+    for b in vf.blocks.values():
+        for ev in b["ev"]:
+            if ev.get("e") not in ("decl", "asg"):
+                continue
+            init = E.strip(ev.get("init") if ev.get("e") == "decl" else ev.get("rhs"))
+            if not isinstance(init, dict):
+                continue
+            for n in E.walk(init):
+                if n.get("k") != "cond":
+                    continue
+                for arm, val in ((n.get("t"), True), (n.get("f"), False)):
+                    digs = [E.strip(c.get("o")).get("d") for c in E.walk(arm) if c.get("k") == "call" and c.get("f", "").endswith("SBuf::rawContent") and E.strip(c.get("o") or {}).get("k") == "ref"]
+                    for dg in digs:
+                        nconv += 1
+                        cond = n["c"]
+                        cs = E.strip(cond)
+                        if cs.get("k") == "ref" and len(vdefs.get(cs.get("d"), [])) == 1:
+                            cond = vdefs[cs["d"]][0]        # look through the bool local
+                        leaves = E.implied(cond, val)
+                        longer = E.M(lambda t, dg=dg: E.strip(t).get("k") == "bin" and E.strip(t).get("op") == "<" and E.const(E.strip(t)["l"]) == 1 and
+                                     any(c.get("f", "").endswith("SBuf::length") and E.m_is_ref(dg)(c.get("o")) for c in E.walk(E.strip(t)["r"])), "%s.length() > 1" % dg)
+                        if any(longer(t) and v is False for t, v in leaves):
+                            ck.ok("G4.single-digit-version", vf.where(ev["l"]), "%s is read through its first digit only when it has exactly one" % dg)
+                        else:
+                            ck.violation("G4.single-digit-version", "G4|parseHttpVersionField|%s|multi-digit-read-as-first-digit" % dg, vf.where(ev["l"]),
+                                         "`%s` is converted through its first character on a path that does not establish %s.length() > 1 false: a multi-digit "
+                                         "version number (HTTP/1.10, HTTP/11.1) is accepted and reported as its first digits" % (dg, dg))
+    ck.need(nconv >= 2, "C22: the single-digit conversions of major/minor version digits were not found in parseHttpVersionField")
     ck.assume("full language equivalence with the ABNF (field order, version token, length limits) is not decided beyond these gates and character classes")
